@@ -29,6 +29,8 @@ func main() {
 		err = cmdSigning(os.Args[2:])
 	case "apiauth":
 		err = cmdAPIAuth(os.Args[2:])
+	case "mcp":
+		err = cmdMCP(os.Args[2:])
 	default:
 		err = fmt.Errorf("unknown subcommand %q", os.Args[1])
 	}
